@@ -35,11 +35,35 @@ def run(ctx):
     ctx.rule('R-C13d', 'release wakes idle workers: every idle thread is kicked inside the lock region; with no thread started the owner event is posted', floor=3)
     ctx.rule('R-C13e', 'join before release: the creator joins the thread before unlinking, unregistering and freeing its record; the '
                        'thread-exit destructor only posts', floor=4)
+    ctx.rule('R-C13f', 'drain: a worker dies only when no work is queued (seq_head == seq_tail) resp. it was not kicked; while '
+                       'work is queued a shutting-down pool keeps its workers', floor=2)
+    ctx.section(drain)
     ctx.section(container_free)
     ctx.section(pool_free)
     ctx.section(hooks)
     ctx.section(put)
     ctx.section(threads)
+
+
+def drain(ctx):
+    prog = ctx.prog
+    n = 0
+    for f in sorted(prog.all_funcs(), key=lambda f: f.q):
+        dies = [e for e in f.events() if is_call(e, '__iv_work_thread_die')]
+        if not dies:
+            continue
+        hd = holding(f)
+        for e in dies:
+            n += 1
+            A = hd.get((e['_b'], e['_i']), frozenset())
+            empty = any(a[0] == '==' and {('work_pool_priv', 'seq_head'), ('work_pool_priv', 'seq_tail')} <= set(a[3]) for a in A)
+            notkicked = any(a[0] == '==' and a[2] == '0' and ('work_pool_thread', 'kicked') in a[3] for a in A)
+            ctx.ob('R-C13f', '%s:dies-only-when-drained' % f.name, empty or notkicked, loc=e['loc'],
+                   detail='the worker exits on the edge %s' % ('seq_head == seq_tail' if empty else 'kicked == 0' if notkicked else
+                                                              '(neither "queue empty" nor "not kicked" holds here: queued items would be dropped)'),
+                   path=None if (empty or notkicked) else path_to(f, e), fn=f.q)
+    if n < 2:
+        raise AnalysisBroken('worker exit sites: %d found, 2 confirmed' % n)
 
 
 def container_free(ctx, files=('iv_work.c', 'iv_thread_posix.c'), rid='R-C13a'):
